@@ -78,9 +78,9 @@ def c03_filter(ctx):
 def _cfg_fire(tier):
     out = []
     K = 12 if tier == 'quick' else 40
-    plan = [('A', 100.0, 'none'), ('A', 100.0, 'two'), ('B', 60.0, 'left'), ('C', 100.0, 'tail')] if tier == 'quick' else \
+    plan = [('A', 100.0, 'none'), ('A', 100.0, 'two'), ('B', 60.0, 'left'), ('C', 100.0, 'tail'), ('A', 2.0, 'tail30')] if tier == 'quick' else \
         [('A', 100.0, w) for w in ('none', 'head', 'tail', 'left', 'two')] + [('B', 60.0, 'left'), ('B', 60.0, 'none'), ('C', 100.0, 'tail'),
-                                                                           ('C', 100.0, 'head'), ('A', 30.0, 'two'), ('A', 0.5, 'none')]
+                                                                           ('C', 100.0, 'head'), ('A', 30.0, 'two'), ('A', 0.5, 'none'), ('A', 2.0, 'tail30'), ('A', 0.5, 'tail30')]
     for (c, step, wind) in plan:
         rmax = K * step / 2 * 0.95
         shards = 4 if tier == 'quick' else 16
